@@ -354,6 +354,24 @@ pub fn expect(cap: usize, len: usize, act: &Act) -> Exp {
             let mut dq: VecDeque<Tag> = pre[a..b].iter().copied().collect();
             trace.push(Obs::Len(dq.len()));
             for i in 0..st.len as usize {
+                if let Some((back, want)) = Steps::short_circuit(st.step(i)) {
+                    let before = dq.len();
+                    let enough = before >= want;
+                    let mut last = None;
+                    for _ in 0..(if enough { want } else { before }) {
+                        last = if back { dq.pop_back() } else { dq.pop_front() };
+                    }
+                    match st.step(i) {
+                        8 | 9 => trace.push(Obs::Yield(if enough { last } else { None })),
+                        10 => trace.push(Obs::Str(format!("{:?}", if enough { Some(want - 1) } else { None }))),
+                        11 => trace.push(Obs::Str(format!("{:?}", if enough { Some(before - want) } else { None }))),
+                        12 => trace.push(Obs::Str(format!("{:?}", enough))),
+                        13 => trace.push(Obs::Str(format!("{:?}", !enough))),
+                        _ => trace.push(Obs::Str(format!("{:?}", if enough { None } else { Some(before) }))),
+                    }
+                    trace.push(Obs::Len(dq.len()));
+                    continue;
+                }
                 let (back, skip) = Steps::decode(st.step(i));
                 let y = match skip {
                     Some(k) if k < dq.len() => {
